@@ -5,6 +5,7 @@ CONSTANTS
   Aborting = {3}
   NT = 3
   Registrar = 4
+  Collector = 0
   Mutant = "none"
 VIEW View
 CHECK_DEADLOCK FALSE
